@@ -3,6 +3,7 @@ package storage
 import (
 	"database/sql"
 	"fmt"
+	"github.com/lab5e/lospan/pkg/verifgate"
 
 	"github.com/lab5e/lospan/pkg/lg"
 	"github.com/lab5e/lospan/pkg/model"
@@ -96,6 +97,9 @@ func (s *Storage) readApplication(rows *sql.Rows) (model.Application, error) {
 
 // GetApplicationByEUI retrieves the application with the specified application EUI.
 func (s *Storage) GetApplicationByEUI(eui protocol.EUI) (model.Application, error) {
+	if err := verifgate.Gate("GetApplicationByEUI"); err != nil {
+		return model.Application{}, err
+	}
 	s.mutex.Lock()
 	defer s.mutex.Unlock()
 
